@@ -202,11 +202,15 @@ PROPS['C02'] = {
 PROPS['C03'] = {
     'lean_targets': ['EmmetProps.C03'],
     'lean_imports': ['EmmetProps.C03'],
-    'theorems': [thm('EmmetProps.C03_merge', 'for ANY attribute type and merge function that keeps the name: the merge loop = declarative group-by-name specification (order of first mention; later mentions folded into the first)', partial=True)],
+    'theorems': [thm('EmmetProps.C03_merge', 'for ANY attribute type and merge function that keeps the name: the merge loop = declarative group-by-name specification (order of first mention; later mentions folded into the first)'),
+                 thm('EmmetProps.C03_merge_model', 'the CONCRETE model of merge_attributes (the function run against the code) = that specification, for every attribute list and option set'),
+                 thm('EmmetProps.C03_other_attribute', 'any repeated attribute other than class: name (first position) kept, LAST value wins — the FIRST under reverseAttributes —, boolean / implied flags or-ed over all mentions'),
+                 thm('EmmetProps.C03_class_attribute', 'class: the values of all mentions merged in the order written'),
+                 thm('EmmetProps.C03_class_words', 'class values that are plain words are joined by single spaces', partial=True)],
     'domains': ['dom_markup'],
     'rule': 'random elements with up to 8 mentions in any order (#id, .class, [name=value] quoted / unquoted / empty / valueless / boolean / implied / expression, repeated names incl. class and id through attribute sets) under 10 attribute-related configurations (quotes, case, compactBoolean, reverseAttributes, jsx, vue, xml, custom booleanAttributes); expected attribute list computed from the statement; non-trivial = at least two operators; distinct = distinct (abbreviation, config)',
-    'explanation': 'The merge loop is a theorem on an abstract attribute type that the concrete model instantiates; parsing of attribute sets, flags, quoting and name mapping are decided by correspondence + oracle.',
-    'level_text': 'Lean 4 theorem: the merge loop equals the declarative group-by specification for any attribute type (partial: the instantiation to the concrete attribute record and the rendering table are checked by correspondence + oracle).',
+    'explanation': 'The merge rules (order of first mention, class joined, last / first value wins, flags or-ed) are theorems about the concrete model of merge_attributes; parsing of attribute sets, flags, quoting and name mapping are decided by correspondence + oracle.',
+    'level_text': 'Lean 4 theorems: the concrete merge_attributes model equals the declarative group-by specification for every attribute list, and its merge function joins class values, lets the last (first under reverseAttributes) value win and ors the flags (partial: attribute-set parsing and the rendering table are checked by correspondence + oracle).',
     'level_note': 'Trusted: Lean kernel + standard axioms; models of parser attribute sets, convert_attribute, merge_attributes, push_attribute tied by correspondence.',
     'assumptions': [CORR],
 }
